@@ -52,9 +52,10 @@ COQ_SNK = {"devnull": "KDevNull", "dataset": "KDataset", "missing": "KMissing"}
 COQ_H = {"none": "HNone", "log": "HLog", "rerun": "HRerun", "logrerun": "HLogRerun", "bad": "HBad", "Log": "HLogCap"}
 
 
-def cfg(source="dataset", transform="none", sink="devnull", trigger="cron", jobType="incremental", handlers="none", kill=False):
+def cfg(source="dataset", transform="none", sink="devnull", trigger="cron", jobType="incremental", handlers="none", kill=False,
+        delete=False):
     return {"kind": "cfg", "source": source, "transform": transform, "sink": sink, "trigger": trigger, "jobType": jobType,
-            "handlers": handlers, "kill": kill}
+            "handlers": handlers, "kill": kill, "delete": delete}
 
 
 def raffle(capF, capI, jobs, workers, iters):
@@ -70,7 +71,7 @@ def lattice():
     for s, t, k, g, j, h in itertools.product(SRC, TR, SNK, TRIG, JT, HS):
         yield cfg(s, t, k, g, j, h, False)
         if s in KILLABLE:
-            yield cfg(s, t, k, g, j, h, True)
+            yield cfg(s, t, k, g, j, h, True, delete=(s == "slow" and (len(t) + len(k) + len(h)) % 2 == 0))
 
 
 def witness_cases():
@@ -115,6 +116,12 @@ def witness_cases():
         cfg(source="proxy"), cfg(source="proxy", jobType="fullsync", handlers="log", transform="js"),
         cfg(source="proxy", trigger="onchange", sink="dataset", handlers="rerun"),
         cfg(source="union"), cfg(source="union", jobType="fullsync", sink="dataset"),
+        # kill of a running job: also after its definition was deleted; with reRun / log handlers and both job types the
+        # driver then waits longer than the retry delay: one run, recorded as killed, not started again
+        cfg(source="slow", kill=True, delete=True), cfg(source="slow", kill=True, delete=True, jobType="fullsync", trigger="onchange"),
+        cfg(source="slow", kill=True, handlers="rerun"), cfg(source="slow", kill=True, handlers="rerun", jobType="fullsync"),
+        cfg(source="slow", kill=True, handlers="logrerun", jobType="fullsync", sink="dataset"),
+        cfg(source="slow", kill=True, handlers="logrerun"), cfg(source="slow", kill=True, handlers="log", jobType="fullsync"),
         cfg(source="union", trigger="onchange", handlers="log", transform="js"),
     ]
 
